@@ -258,27 +258,30 @@ def expandConvBack (x : Tensor S) (kidDims : List Nat) : R (Tensor S) := do
     getR x.vals (img * imageLen + (w % filters) * stride + w / filters)) total
   Tensor.mk? kidDims vals
 
-/-- `image.conv(filters, strides)` -/
-def conv (image filters : Tensor S) (sr sc : Nat) : R (Tensor S) := do
-  let n := image.dims.length
-  let fn := filters.dims.length
+/-- the shape bookkeeping and the refusals of `conv`: `(depth, fr, fc, rCount, cCount)` -/
+def convParams (idims fdims : List Nat) (sr sc : Nat) : R (Nat × Nat × Nat × Nat × Nat) := do
+  let n := idims.length
+  let fn := fdims.length
   if n = 0 then throw .underflow
   if !(n ≥ 3 && fn ≥ 3) then throw .rank
-  let depth ← dimFromEnd image.dims 3
-  let rows ← dimFromEnd image.dims 2
-  let cols ← dimFromEnd image.dims 1
-  let fr ← dimFromEnd filters.dims 2
-  let fc ← dimFromEnd filters.dims 1
+  let depth ← dimFromEnd idims 3
+  let rows ← dimFromEnd idims 2
+  let cols ← dimFromEnd idims 1
+  let fr ← dimFromEnd fdims 2
+  let fc ← dimFromEnd fdims 1
   if rows < fr || cols < fc then throw .underflow
   if sr = 0 || sc = 0 then throw .underflow
-  let rCount := (rows - fr) / sr + 1
-  let cCount := (cols - fc) / sc + 1
-  let unrolled ← unrollBlocks image sr sc fr fc
+  pure (depth, fr, fc, (rows - fr) / sr + 1, (cols - fc) / sc + 1)
+
+/-- `image.conv(filters, strides)` -/
+def conv (image filters : Tensor S) (sr sc : Nat) : R (Tensor S) := do
+  let prm ← convParams image.dims filters.dims sr sc
+  let unrolled ← unrollBlocks image sr sc prm.2.1 prm.2.2.1
   let last ← dimFromEnd unrolled.dims 1
-  let size := last / depth
-  let fm ← reshape filters (filters.dims.take (fn - 3) ++ [size * depth])
+  let size := last / prm.1
+  let fm ← reshape filters (filters.dims.take (filters.dims.length - 3) ++ [size * prm.1])
   let convolved ← matmul unrolled false fm true none
-  expandConv convolved rCount cCount
+  expandConv convolved prm.2.2.2.1 prm.2.2.2.2
 
 /-- `cost::mse` -/
 def mse (output target : Tensor S) : R (Tensor S) := do
